@@ -970,6 +970,43 @@ def _mujoco_physics(ctx):
         g.close()
 
 
+def _mujoco_reset_all(ctx, names):
+    """Reset-state clauses for environments whose full physics differential runs only in the thorough
+    tier: initial() is cheap to compile, so the cached kinematics of the reset state and the reset
+    observation are compared with MuJoCo C / Gymnasium at the same qpos/qvel for every environment."""
+    k = _key()
+    for name in names:
+        opts = {}
+        e, g = _make_pair(name, opts)
+        mjm = g.model
+        dims = (int(mjm.nq), int(mjm.nv), int(mjm.nbody))
+        initial = eqx.filter_jit(e.initial)
+        pre = f"mujoco:{name}"
+        tol = 1e-3
+        for r in range(ctx.budget(2, 4)):
+            key = jax.random.key(int(ctx.rng.integers(0, 2**31 - 1)))
+            s = initial(key=key)
+            pl_ = _phys(s.sim_state)
+            qpos, qvel = pl_["qpos"], pl_["qvel"]
+            case = {"env": name, "source": "initial()", "qpos": qpos, "qvel": qvel}
+            g.reset(seed=int(ctx.rng.integers(0, 2**31 - 1)))
+            g.set_state(qpos.copy(), qvel.copy())
+            gobs0 = np.asarray(g._get_obs(), dtype=np.float64)
+            lobs0 = _np(e.observation(s, key=k))
+            mask = _cfrc_mask(name, opts, len(gobs0), dims)
+            keep = np.setdiff1d(np.arange(len(gobs0)), mask)
+            clauses = [("reset_kinematics:xpos", pl_["xpos"].ravel(), np.asarray(g.data.xpos).ravel()),
+                       ("reset_kinematics:xipos", pl_["xipos"].ravel(), np.asarray(g.data.xipos).ravel()),
+                       ("reset_kinematics:cinert", pl_["cinert"].ravel(), np.asarray(g.data.cinert).ravel()),
+                       ("reset_kinematics:site_xpos", pl_["site_xpos"].ravel(), np.asarray(g.data.site_xpos).ravel()),
+                       ("observation_at_reset", lobs0[keep], gobs0[keep])]
+            _same(ctx, clauses, case, f"{pre}:physics", atol=tol, rtol=tol)
+            ctx.case(case, True)
+            ctx.count(f"{pre}:reset-states")
+        g.close()
+        ctx.gc(3)
+
+
 def _contact_during(g, action):
     """is any contact active at some sub-step of Gymnasium's transition from the current state?"""
     import copy
@@ -1006,6 +1043,8 @@ def run(ctx):
     _pendulum(ctx)
     _mujoco_assembly(ctx)
     _mujoco_physics(ctx)
+    if ctx.quick and not ctx.x64:
+        _mujoco_reset_all(ctx, [n for n in ENVS if n not in QUICK_PHYSICS])
     ctx.note("InvertedDoublePendulum: lerax reports dist_penalty / vel_penalty / alive_bonus (penalties "
              "positive) where Gymnasium reports distance_penalty / velocity_penalty / reward_survive "
              "(penalties negative); compared as the same three quantities")
